@@ -39,4 +39,5 @@ RULE += " In half of the cases the weight dict's keys are in shuffled (non-alpha
 RULE += ' 6% near-unit cases: one asset priced 6e4-5e5 whose allocation is 1.2 currency units to 5e-5 of a unit short of a whole number of units.'
 RULE += ' 8% of the cases use plain integer weights (+-1, +-2, 0).'
 RULE += ' Every returned target portfolio is overwritten by the caller (quantity 250 everywhere) before the sizer is used again; in a third of the percentage-fee cases the fee model object gets its rates only after the broker was built with it.'
+RULE += ' Round 11: as C10 (gap after later use; partitioned CSV sources).'
 ASSUMPTIONS = ['weights whose gross exposure is within 1e-8 of zero are used unscaled, as the code documents']
